@@ -3,10 +3,11 @@
 
      pipes.add / pipes.remove      (the final handlers bound on the source:
                                     non-flat = `go target.EvAdd/EvRemove1`,
-                                    flat+local = skip on the target's CURRENT
-                                    state, else a synchronous call)
-     pipes.BindAny                 (AnyState handler: skip when the target
-                                    `Is` the source's new states, else Set)
+                                    flat+local = skip on the state of an IDLE
+                                    target, else a synchronous call)
+     pipes.BindAny                 (AnyState handler: skip when the target's
+                                    active set equals the source's new
+                                    states, else Set)
      pipes.Sync
      Machine.EvAdd / EvRemove      (queue-duplicate skip of queueMutation,
                                     the early return of Remove, enqueue,
@@ -253,6 +254,9 @@ Definition mark (s : cfg) : cfg :=
      c_busydel := c_busydel s; c_lossy := c_lossy s; c_evlog := c_evlog s;
      c_vetoed := true |}.
 
+(* pipes.targetIdle: QueueLen() == 0 && Transition() == nil *)
+Definition target_idle (t : tgt) : bool := is_nil (t_queue t) && negb (t_busy t).
+
 (* an accepted, applied source mutation: only a transition that flips the
    piped state (or re-adds a Multi one) fires a pipe handler *)
 Definition src_call (c : pcfg) (s : cfg) (k : mkind) (i : nat) (args : bool) : cfg :=
@@ -265,10 +269,12 @@ Definition src_call (c : pcfg) (s : cfg) (k : mkind) (i : nat) (args : bool) : c
        c_evlog := c_evlog s ++ [0%N]; c_vetoed := c_vetoed s |}
   | Some ek =>
     if p_flat c then
-      (* flat: skip on the target's current state, else a synchronous,
+      (* flat: skip on the state of an IDLE target (targetIdle: nothing
+         queued, no transition in progress), else a synchronous,
          argument-less call inside the source's final handler *)
       let t := c_tgt s in
-      let skip := match ek with
+      let skip := target_idle t &&
+                  match ek with
                   | MAdd => act (t_ticks t) i
                   | MRem => negb (act (t_ticks t) i)
                   end in
@@ -286,7 +292,9 @@ Definition src_call (c : pcfg) (s : cfg) (k : mkind) (i : nat) (args : bool) : c
            c_srclog := c_srclog s ++ [if stuck then 3%N else 0%N];
            c_dellog := c_dellog s ++ [(mut_code m, r)];
            c_reord := c_reord s; c_busydel := c_busydel s || t_busy t;
-           c_lossy := c_lossy s; c_evlog := c_evlog s ++ [1%N];
+           c_lossy := (fst (c_lossy s) || lossy_early t m,
+                       snd (c_lossy s) || lossy_dup c t m);
+           c_evlog := c_evlog s ++ [1%N];
            c_vetoed := c_vetoed s |}
     else
       {| c_src := src'; c_tgt := c_tgt s;
@@ -388,9 +396,13 @@ Fixpoint subset_b (a b : list bool) : bool :=
   | x :: r, y :: s => implb x y && subset_b r s
   end.
 
-(* AnyState handler of BindAny: `if target.Is(states) return; target.Set(states)` *)
+Definition count_true (a : list bool) : nat := length (filter (fun b => b) a).
+
+(* AnyState handler of BindAny:
+   `if len(target.ActiveStates(nil)) == len(states) && target.Is(states) return;
+    target.Set(states)` *)
 Definition any_tgt (src' tg : list bool) : list bool :=
-  if subset_b src' tg then tg else src'.
+  if Nat.eqb (count_true tg) (count_true src') && subset_b src' tg then tg else src'.
 
 Definition any_step (n : nat) (st : list bool * list bool) (o : aop)
   : list bool * list bool :=
